@@ -30,6 +30,7 @@ type replayCacheEntry struct {
 }
 
 func (c *Cache) getClientEntries(cname types.PrincipalName) (clientEntries, bool) {
+	verifYield("getClientEntries")
 	c.mux.RLock()
 	defer c.mux.RUnlock()
 	ce, ok := c.entries[cname.PrincipalNameString()]
@@ -37,7 +38,9 @@ func (c *Cache) getClientEntries(cname types.PrincipalName) (clientEntries, bool
 }
 
 func (c *Cache) getClientEntry(cname types.PrincipalName, t time.Time) (replayCacheEntry, bool) {
+	verifYield("getClientEntry")
 	if ce, ok := c.getClientEntries(cname); ok {
+		verifYield("getClientEntry.second-lock")
 		c.mux.RLock()
 		defer c.mux.RUnlock()
 		if e, ok := ce.replayMap[t]; ok {
@@ -71,8 +74,10 @@ func GetReplayCache(d time.Duration) *Cache {
 
 // AddEntry adds an entry to the Cache.
 func (c *Cache) AddEntry(sname types.PrincipalName, a types.Authenticator) {
+	verifYield("AddEntry")
 	ct := a.CTime.Add(time.Duration(a.Cusec) * time.Microsecond)
 	if ce, ok := c.getClientEntries(a.CName); ok {
+		verifYield("AddEntry.lock-existing")
 		c.mux.Lock()
 		defer c.mux.Unlock()
 		ce.replayMap[ct] = replayCacheEntry{
@@ -83,6 +88,7 @@ func (c *Cache) AddEntry(sname types.PrincipalName, a types.Authenticator) {
 		ce.seqNumber = a.SeqNumber
 		ce.subKey = a.SubKey
 	} else {
+		verifYield("AddEntry.lock-new")
 		c.mux.Lock()
 		defer c.mux.Unlock()
 		c.entries[a.CName.PrincipalNameString()] = clientEntries{
@@ -101,6 +107,7 @@ func (c *Cache) AddEntry(sname types.PrincipalName, a types.Authenticator) {
 
 // ClearOldEntries clears entries from the Cache that are older than the duration provided.
 func (c *Cache) ClearOldEntries(d time.Duration) {
+	verifYield("ClearOldEntries")
 	c.mux.Lock()
 	defer c.mux.Unlock()
 	for ke, ce := range c.entries {
@@ -117,12 +124,14 @@ func (c *Cache) ClearOldEntries(d time.Duration) {
 
 // IsReplay tests if the Authenticator provided is a replay within the duration defined. If this is not a replay add the entry to the cache for tracking.
 func (c *Cache) IsReplay(sname types.PrincipalName, a types.Authenticator) bool {
+	verifYield("IsReplay")
 	ct := a.CTime.Add(time.Duration(a.Cusec) * time.Microsecond)
 	if e, ok := c.getClientEntry(a.CName, ct); ok {
 		if e.sName.Equal(sname) {
 			return true
 		}
 	}
+	verifYield("IsReplay.before-insert")
 	c.AddEntry(sname, a)
 	return false
 }
